@@ -127,7 +127,15 @@ fn gen_case(c: &mut Chooser) -> Case {
     // the configuration file in the project root, or in a subdirectory with `..` in every pattern and output path
     let sub = c.flag("config.in-subdirectory");
     let up = if sub { ".." } else { "." };
-    let mut y = format!("schema: {up}/schema/*.graphql\ndocuments:\n  - {up}/src/**/*.graphql\nextensions:\n  nitrogql:\n    generate:\n");
+    // a plugin that contributes a schema addition: a virtual file takes a place in the CLI's file table
+    let plugin = c.flag("plugins.model-plugin");
+    if plugin {
+        for (_, v) in files.iter_mut().filter(|(k, _)| k.starts_with("schema/")) {
+            *v = v.replace("type Post implements Node {\n  id: ID!", "type Post implements Node {\n  id: ID! @model").replace("type Post implements Node {\r\n  id: ID!", "type Post implements Node {\r\n  id: ID! @model");
+        }
+        tags.push("model-plugin".into());
+    }
+    let mut y = format!("schema: {up}/schema/*.graphql\ndocuments:\n  - {up}/src/**/*.graphql\nextensions:\n  nitrogql:\n{}    generate:\n", if plugin { "    plugins:\n      - \"nitrogql:model-plugin\"\n" } else { "" });
     y.push_str(&format!("      mode: {}\n      schemaOutput: {up}/{schema_out}\n", MODES[mode].0));
     if let Some(r) = &resolvers_out {
         y.push_str(&format!("      resolversOutput: {up}/{r}\n"));
@@ -241,13 +249,19 @@ fn check_map(rep: &Reporter, case: &Case, case_json: &dyn Fn(J) -> J, map_path: 
     };
     let root = v["sourceRoot"].as_str().unwrap_or("");
     let mut src_files: Vec<Option<String>> = vec![];
+    let mut virtual_sources: Vec<i128> = vec![];
     for (i, s) in sources.iter().enumerate() {
         let Some(s) = s.as_str() else {
             bad(format!("map_shape:{kind}"), format!("sources[{i}] is not a string"));
             return None;
         };
         let res = norm_join(dir_of(map_path), &format!("{root}{s}"));
-        if !case.files.contains_key(&res) || !res.ends_with(".graphql") {
+        if case.tags.iter().any(|t| t == "model-plugin") && s.rsplit('/').next() == Some("(plugin)") {
+            // the plugin's schema addition is a virtual file (a relative name, outside C20's precondition):
+            // its entry is tolerated, a segment into it is not
+            src_files.push(None);
+            virtual_sources.push(i as i128);
+        } else if !case.files.contains_key(&res) || !res.ends_with(".graphql") {
             bad(format!("source_does_not_resolve:{kind}"), format!("sources[{i}] = {s:?} resolves to {res:?}, which is not an input file"));
             src_files.push(None);
         } else {
@@ -299,6 +313,10 @@ fn check_map(rep: &Reporter, case: &Case, case_json: &dyn Fn(J) -> J, map_path: 
         let Some((si, ol, oc)) = s.src else { continue };
         if si < 0 || si as usize >= sources.len() {
             bad(format!("source_index_out_of_range:{kind}"), format!("segment at generated {}:{} has source index {si} ({} sources)", s.gen_line, s.gen_col, sources.len()));
+            continue;
+        }
+        if virtual_sources.contains(&si) {
+            bad(format!("segment_into_virtual_file:{kind}"), format!("segment at generated {}:{} points into the plugin's virtual file, which prints nothing", s.gen_line, s.gen_col));
             continue;
         }
         let Some(sf) = &src_files[si as usize] else { continue };
